@@ -3,7 +3,7 @@ CONSTANTS
   NP = 2
   Threads <- JThreads
   Thr = 2
-  InitBal = 5
+  InitBal = 9
   PersistUnderLock = FALSE
   Amounts <- JAmounts
   MaxOps = 0
